@@ -933,3 +933,13 @@ func (ex *Exec) freshName(base string) string {
 	}
 	return fmt.Sprintf("%s#%d", base, ex.symSeq[base])
 }
+
+func (e *Engine) noteImpure(fn string) {
+	msg := "merge list: " + fn + " writes to pre-existing memory on some path; executed as an ordinary call there"
+	for _, n := range e.rep.Notes {
+		if n == msg {
+			return
+		}
+	}
+	e.rep.Notes = append(e.rep.Notes, msg)
+}
